@@ -200,6 +200,29 @@ def build(E):
 
     spec.targets = [f"{PX}._handle_async", f"{PX}.handle", f"{PX}.__init__"]
     spec.keep = lambda name: "[C18]" not in name
+    if getattr(E, "_c17_with_session", True) and not getattr(E, "_c17_nested", False):
+        # the URL computed by the proxy reaches the upstream as the request line only if the client sends it unaltered:
+        # GeminiClient._get_single (real __init__, real protocol methods) with the clause '[C17] request line == normalised URL';
+        # GeminiClientProtocol.connection_made writes exactly self.url ++ CRLF (proved under C11)
+        from contracts import client_proto, client_session
+        ptargets = list(spec.targets)
+        spec.targets = []
+        client_proto.add_targets(E, spec, "C17", classes=(client_proto.GP,))
+        spec.targets = [t for t in spec.targets if t[0].endswith(".connection_made")]
+        pkeep = spec.keep
+        spec.keep = None
+        client_session.add_targets(E, spec, "C17")
+        spec.targets = [t for t in spec.targets if not t[0].endswith(".upload")]
+        skeep = spec.keep
+        spec.targets = ptargets + spec.targets
+
+        def keep(name, _s=skeep):
+            if name.startswith(PX):
+                return "[C18]" not in name
+            if name.startswith(CL):
+                return _s(name) if _s else True
+            return "[C11]" in name          # connection_made: exactly the request line is written
+        spec.keep = keep
     spec.trusted += ["E7: host and port of a URL are functions of its authority (the text between '://' and the first of / ? #)",
                      "precondition: the configured upstream has a non-empty authority (a configuration such as 'gemini://' or 'gemini:///x' is outside the property's configurations)",
                      "request.path starts with '/' and has no ?#, request.query has no # (post of parse_url, decided under C19)"]
